@@ -41,11 +41,14 @@ type c14Tok struct {
 //   scph  /*!40001 ? */ an expression: the ? inside MySQL-specific code is executed, a real placeholder
 //   hint  /*+ MAX_EXECUTION_TIME(1000) */ optimizer hint, only right behind select
 //   tmul tdiv tsub tmm   *3  /3  -3  --3  continue the previous expression
-var c14Fixed = map[string]string{"mm": "1--2", "tmul": "*3", "tdiv": "/3", "tsub": "-3", "tmm": "--3", "scph": "/*!40001 ? */", "hint": "/*+ MAX_EXECUTION_TIME(1000) */"}
+//   tmulc tmulq tdivc     the same with an ordinary comment between operator and operand, the
+//         operator glued to the comment opener ("*/*" reads like a comment end to a scanner
+//         that still believes it is inside an earlier /*! */ block)
+var c14Fixed = map[string]string{"mm": "1--2", "tmul": "*3", "tdiv": "/3", "tsub": "-3", "tmm": "--3", "scph": "/*!40001 ? */", "tmulc": "*/* why? */3", "tmulq": "*/* it's */3", "tdivc": "/ /* why? */3", "hint": "/*+ MAX_EXECUTION_TIME(1000) */"}
 var c14ScText = map[string]string{"": "/*!40001 */", "nc": "/*!40001 SQL_NO_CACHE */", "nover": "/*! */"}
 
 func c14IsTail(kind string) bool {
-	return kind == "tmul" || kind == "tdiv" || kind == "tsub" || kind == "tmm"
+	return kind == "tmul" || kind == "tdiv" || kind == "tsub" || kind == "tmm" || kind == "tmulc" || kind == "tmulq" || kind == "tdivc"
 }
 func c14FirstOnly(t c14Tok) bool { return t.Kind == "hint" || (t.Kind == "sc" && t.Open == "nc") }
 
@@ -501,7 +504,7 @@ var c14Alphabet = []c14Tok{
 }
 
 func TestVerif_C14(t *testing.T) {
-	rec := kit.Start("C14", "exploration", "statements assembled from lexical units (placeholder, '…', \"…\", `…`, -- …, #…, /*…*/, 1--2) whose bodies are sequences of named pieces (?, \\', \\\", '', \"\", \\\\, other quote chars, comment markers, newline) in 3 statement skeletons; (a) every unit with every body up to a length bound, alone and next to a real placeholder, (a2) every opener/terminator of the comment units (what follows --, how a line comment ends, bytes after /* and before */), (a3) every ordered pair of 22 unit prototypes (incl. /*! */, /*!40001 ? */, /*+ */ and the expression tails *3 /3 -3 --3) glued without a blank, (b) every sequence of a 16-unit alphabet up to a length bound, (c) random sequences of random units; non-trivial = distinct (set of unit descriptions, number of real placeholders, outcome)")
+	rec := kit.Start("C14", "exploration", "statements assembled from lexical units (placeholder, '…', \"…\", `…`, -- …, #…, /*…*/, 1--2) whose bodies are sequences of named pieces (?, \\', \\\", '', \"\", \\\\, other quote chars, comment markers, newline) in 3 statement skeletons; (a) every unit with every body up to a length bound, alone and next to a real placeholder, (a2) every opener/terminator of the comment units (what follows --, how a line comment ends, bytes after /* and before */), (a3) every ordered pair of 25 unit prototypes (incl. /*! */, /*!40001 ? */, /*+ */ and the expression tails *3 /3 -3 --3 */* why? */3 */* it's */3) glued without a blank, (b) every sequence of a 16-unit alphabet up to a length bound, (c) random sequences of random units; non-trivial = distinct (set of unit descriptions, number of real placeholders, outcome)")
 	rec.Assume("default sql_mode: backslash is an escape inside '…' and \"…\", \"…\" is a string (no ANSI_QUOTES, no NO_BACKSLASH_ESCAPES)")
 	rec.Assume("/*! … */ is executed by the server: a ? inside it is a real placeholder; only the fixed forms /*!40001 */, /*!40001 SQL_NO_CACHE */, /*! */, /*!40001 ? */ and the hint /*+ MAX_EXECUTION_TIME(1000) */ are generated")
 	defer rec.Finish(t)
@@ -692,7 +695,7 @@ func TestVerif_C14(t *testing.T) {
 		{Kind: "bq", Body: []string{"q"}}, {Kind: "dash", Body: []string{"q"}}, {Kind: "dash", Open: "tab", Body: []string{"q"}}, {Kind: "hash", Body: []string{"q"}},
 		{Kind: "cc", Body: []string{"q"}}, {Kind: "cc"}, {Kind: "cc", Open: "star"}, {Kind: "cc", Open: "slash", Body: []string{"q"}},
 		{Kind: "sc"}, {Kind: "sc", Open: "nc"}, {Kind: "sc", Open: "nover"}, {Kind: "scph"}, {Kind: "hint"}, {Kind: "mm"},
-		{Kind: "tmul"}, {Kind: "tdiv"}, {Kind: "tsub"}, {Kind: "tmm"}}
+		{Kind: "tmul"}, {Kind: "tdiv"}, {Kind: "tsub"}, {Kind: "tmm"}, {Kind: "tmulc"}, {Kind: "tmulq"}, {Kind: "tdivc"}}
 	nglue := 0
 	for ai, a := range protos {
 		for bi, b := range protos {
@@ -766,7 +769,7 @@ func TestVerif_C14(t *testing.T) {
 				continue
 			}
 			if r.Chance(1, 8) {
-				k := r.Pick([]string{"mm", "tmul", "tdiv", "tsub", "tmm", "sc", "scph"})
+				k := r.Pick([]string{"mm", "tmul", "tdiv", "tsub", "tmm", "sc", "scph", "tmulc", "tmulq", "tdivc"})
 				tk := c14Tok{Kind: k, Glue: r.Chance(1, 2)}
 				if k == "scph" {
 					if nph >= 6 {
